@@ -1254,3 +1254,9 @@ mut('C02', 'validate-skips-vertical', BRANCHES,
 mut('C13', 'seed-handler-indexes-args', BERTE,
     "                job.details = str(err)\n            elif",
     "                job.details = str(err.args[0])\n            elif")
+mut('C01', 'seed-octopus-arm-uses-first', INTEG,
+    "            robust_merge(wbranch.dst_branch, prev.dst_branch, wbranch)",
+    "            robust_merge(wbranch.dst_branch, first.dst_branch, wbranch)")
+mut('C01', 'queue-octopus-arm-without-qint', QUEUE,
+    "                robust_merge(qbranch, wbranch, qint)",
+    "                robust_merge(qbranch, wbranch, to_push[-1])")
